@@ -154,7 +154,7 @@ static void compile_once(EPlan *P, Cfg *c, uint64_t seed, Outs *o) {
     if (P->tool == 0) { av[ac++] = "--emit-nvm"; av[ac++] = "-o"; av[ac++] = "/sim/out/prog.nvm"; }
     else { av[ac++] = "-o"; av[ac++] = "/sim/out/prog"; if (!s->multi) av[ac++] = "-S"; else av[ac++] = "-fshow-intermediate-code"; }
     av[ac] = NULL;
-    sim_stack_junk = c->stackjunk;
+    sim_stack_junk = c->stackjunk; sim_stack_scribble = c->stackjunk; sim_stack_shift = (size_t)(c->stackjunk * 977 + c->pid) % 60000;
     SimProc *p = sim_spawn(P->tool ? "nanoc" : "nano_virt", P->tool ? "nanoc" : "nano_virt", ac, av, &o->out, &o->err, 0);
     snprintf(p->cwd, sizeof p->cwd, "%s", cwd);
     char kv[300];
@@ -252,6 +252,7 @@ static void fam_run(uint64_t seed, const RunOpts *o, Result *r) {
     if (!ref || !ref->have || !ref->o.finished) { strcpy(r->verdict, "skip"); buf_printf(&r->detail, "configuration 0 did not finish (compiler crash on this input is not C19's business)"); return; }
     static Outs cur;
     compile_once(&P, &P.c, seed, &cur);
+    if (__real_getenv("NANOSIM_DUMP")) { FILE *df = __real_fopen(__real_getenv("NANOSIM_DUMP"), "wb"); if (df) { fwrite(cur.nvm.d, 1, cur.nvm.len, df); fclose(df); } }
     const char *tool = P.tool ? "nanoc" : "nano_virt";
     if (!cur.finished) { res_violation(r, "C19", "compiler-did-not-finish:%s:%s", tool, P.prog); }
     else {
